@@ -188,6 +188,13 @@ func (h *Sources) Walk(pos int) {
 	if h.hpos == -1 && pos > 0 {
 		h.skip = false
 		h.Save()
+
+		// A new undo state keeps a command-mode cursor (never after the last
+		// character): keep the real one, needed when searching from this line.
+		if line := h.getLineHistory(); line != nil && len(line.items) > 0 {
+			line.items[len(line.items)-1].pos = h.cursor.Pos()
+		}
+
 		h.cpos = -1
 		h.hpos = 0
 	}
